@@ -4,6 +4,7 @@ import (
 	"fmt"
 
 	"github.com/smarthome-go/homescript/v3/homescript/analyzer/ast"
+	"github.com/smarthome-go/homescript/v3/homescript/diagnostic"
 	"github.com/smarthome-go/homescript/v3/homescript/errors"
 	"github.com/smarthome-go/homescript/v3/homescript/optimizer"
 	pAst "github.com/smarthome-go/homescript/v3/homescript/parser/ast"
@@ -55,14 +56,29 @@ func VerifHarness_PrintRoundTrip() {
 	printer := errors.VerifNdIntRange("printer", 0, 1)
 	errors.VerifTag("template", t.name)
 	errors.VerifTag("printer", []string{"parsed", "analysed"}[printer])
-	inputs := verifStdInputs()
-	an1 := verifAnalyze(t.code, nil, inputs, true)
+	verifPrintCheck(t.code, verifStdInputs(), printer, verifHost{})
+}
+
+// verifPrintCheck: print -> re-parse -> re-analyse -> run, for one program and one printer.
+func verifPrintCheck(code string, inputs []verifInput, printer int, host verifHost) {
+	analyze := func(text string) verifAnalysis {
+		mods, diags, syn := Analyze(InputProgram{ProgramText: text, Filename: verifFile}, verifAnalyzerScope(inputs), host, true)
+		r := verifAnalysis{modules: mods, diags: diags, syntax: syn}
+		r.hasError = len(syn) > 0
+		for _, d := range diags {
+			if d.Level == diagnostic.DiagnosticLevelError {
+				r.hasError = true
+			}
+		}
+		return r
+	}
+	an1 := analyze(code)
 	printed := ""
 	panicked, msg := errors.VerifPanics(func() {
 		if printer == 0 {
-			tree, _, perr := Parse(t.code, verifFile)
+			tree, _, perr := Parse(code, verifFile)
 			if perr != nil {
-				errors.VerifInconclusive("corpus program does not parse: " + t.name)
+				errors.VerifInconclusive("program does not parse")
 			}
 			printed = tree.String()
 		} else {
@@ -90,7 +106,7 @@ func VerifHarness_PrintRoundTrip() {
 	if printer == 0 {
 		errors.VerifAssert("printing-is-a-fixed-point-after-one-round", tree2.String() == printed)
 	}
-	an2 := verifAnalyze(printed, nil, inputs, true)
+	an2 := analyze(printed)
 	errors.VerifAssert("acceptance-preserved", an1.hasError == an2.hasError)
 	if an1.hasError || an2.hasError {
 		if an2.hasError {
@@ -113,6 +129,48 @@ func VerifHarness_PrintRoundTrip() {
 	}
 	errors.VerifReached("ran")
 	errors.VerifAssert("printed-program-behaves-identically", o1.class == o2.class && o1.out == o2.out)
+	errors.VerifAssert("printed-program-registers-the-same-triggers", fmt.Sprint(o1.triggers) == fmt.Sprint(o2.triggers))
+}
+
+// VerifHarness_PrintFamilies: the generated program families through both printers: the statement x position
+// product (with host triggers, a template and singletons in scope) and the nesting family of depth <= D.
+func VerifHarness_PrintFamilies() {
+	fam := errors.VerifNdIntRange("family", 0, 1)
+	printer := errors.VerifNdIntRange("printer", 0, 1)
+	errors.VerifTag("printer", []string{"parsed", "analysed"}[printer])
+	if fam == 0 {
+		si := errors.VerifNdIntRange("stmt", 0, len(vsStatements)-1)
+		ci := errors.VerifNdIntRange("ctx", 0, len(vsContexts)-1)
+		errors.VerifTag("stmt", vsStatements[si])
+		errors.VerifTag("ctx", fmt.Sprint(ci))
+		if vsStatements[si] == "continue;" && ci == 5 {
+			return // never ends by its own semantics
+		}
+		if verifHasPrefix(vsStatements[si], "spawn ") {
+			return // print order of a concurrently running function is not comparable between two runs
+		}
+		verifPrintCheck(vsPrelude+vsReplace(vsContexts[ci], vsStatements[si]), nil, printer, verifHost{})
+		return
+	}
+	D := errors.VerifParam("D", 1)
+	d := errors.VerifNdIntRange("depth", 1, D)
+	g := &verifNestGen{exit: errors.VerifNdIntRange("exit", 0, len(verifExitKinds)-1)}
+	tag := ""
+	for i := 0; i < d; i++ {
+		sl := errors.VerifNdIntRange(fmt.Sprintf("slot%d", i), 0, len(verifSlotKinds)-1)
+		g.slots = append(g.slots, sl)
+		tag += verifSlotKinds[sl] + ">"
+	}
+	errors.VerifTag("nest", tag+verifExitKinds[g.exit])
+	code, ok := g.program()
+	if !ok {
+		return
+	}
+	p := errors.VerifNdBool("P")
+	a := errors.VerifNdInt64("A")
+	errors.VerifAssume(a >= -3)
+	errors.VerifAssume(a <= 3)
+	verifPrintCheck(code, []verifInput{{name: "P", kind: 'b', b: p}, {name: "A", kind: 'i', i: a}}, printer, verifHost{})
 }
 
 // VerifHarness_PrintStringLiteral: a string literal whose content is K unconstrained runes survives print + re-lex + re-parse.
